@@ -18,7 +18,7 @@ DEFAULT_PROFILE = {
     "p_optsrc_same_guard": 0.07, "p_subdirs_later_doc": 0.06, "p_shadowed_provider": 0.07, "p_two_patched_downloads": 0.05, "p_custom_build_no_out": 0.04, "p_cli_comma_define": 0.05, "p_self_named_unique": 0.05, "p_defaults_uses_removed": 0.05, "p_app_custom_build": 0.04, "p_same_dldir_downloads": 0.04,
     "p_desc_with_builder": 0.05, "p_srcdir_in_root_download": 0.04, "p_provided_name_is_module": 0.05, "p_download_with_srcdir": 0.04, "p_task_killed": 0.0, "p_no_link_rule_builder": 0.04, "p_cli_define_builtin": 0.05, "p_varopts_from_chain": 0.04,
     "p_defaults_other_kind_below": 0.05, "p_varopts_on_builtin": 0.05, "p_empty_patch_list": 0.04, "p_rule_text_newline": 0.01,
-    "p_same_source_two_spellings": 0.04, "p_uses_removal_marker": 0.05, "p_suffix_ext_rules": 0.05, "p_srcdir_dot": 0.05, "p_module_sets_builtin_var": 0.05,
+    "p_odd_app_names": 0.04, "p_same_source_two_spellings": 0.04, "p_uses_removal_marker": 0.05, "p_suffix_ext_rules": 0.05, "p_srcdir_dot": 0.05, "p_module_sets_builtin_var": 0.05,
     "p_context_prefixed_module": 0.05, "p_alias_spellings": 0.05, "p_root_context_disables": 0.05, "p_escaped_early_var": 0.05,
     "p_dup_context_list": 0.03, "p_empty_task_map": 0.04, "p_download_not_build_dep": 0.04, "p_global_deps_chain": 0.04,
     "p_cycle": 0.02, "p_task_fail": 0.0, "p_root_noenv": 0.06, "p_out_per_builder": 0.3, "p_same_override": 0.15, "p_hard_missing": 0.03, "p_app_elsewhere": 0.25,
